@@ -9,7 +9,7 @@ from typing import Any, Dict, List, Optional
 
 from ..elements import load_refdoms
 from ..interp import (Interp, Obj, PyFunc, Raised, Unsupported)
-from ..model import AnalysisError, Model, src, walk_no_nested
+from ..model import staged, AnalysisError, Model, src, walk_no_nested
 from ..poly import Poly
 from ..refcell import (Child, ChildList, ConnTable, EntTable, IdxArr, Mask,
                        ARange, MASKS, NT, SZ, PStub, PointTable, Recorder,
@@ -899,10 +899,9 @@ def run(model: Model, rep, tier: str) -> None:
     rep.rule("C13-R5", "fill values of padded child tables are removed by "
              "value before index sets become subdomains; ancestors of "
              "bisected tetrahedra are inherited")
-    _templates(model, rep)
-    _line(model, rep)
-    _sentinel_tables(model, rep)
-    _tet_ancestry(model, rep)
+    staged(lambda: _templates(model, rep), lambda: _line(model, rep),
+           lambda: _sentinel_tables(model, rep),
+           lambda: _tet_ancestry(model, rep))
     n = tag_rule(model, rep, "C13-R4",
                  only=lambda f: f.name.startswith("_adaptive"))
     if n < 3:
